@@ -544,8 +544,12 @@ Definition spec_text (sp : string) : string :=
 Definition field_body (f : field) : string :=
   let '(name, sp, cv) := f in name ++ conv_text cv ++ spec_text sp ++ String rbrace EmptyString.
 
+(** (the conversion character, when there is one, is ASCII: the model's strings are byte strings) *)
+Definition conv_ok (cv : option ascii) : Prop :=
+  match cv with Some c => Nat.leb 128 (nat_of_ascii c) = false | None => True end.
+
 Definition field_ok (f : field) : Prop :=
-  let '(name, sp, cv) := f in name_ok name = true /\ no_brace sp = true.
+  let '(name, sp, cv) := f in name_ok name = true /\ no_brace sp = true /\ conv_ok cv.
 
 Lemma parse_field_shape name t r :
   name_ok name = true -> is_term t = true ->
@@ -555,6 +559,7 @@ Lemma parse_field_shape name t r :
      match r with
      | EmptyString => Err "ValueError" "end of string while looking for conversion specifier"
      | String cv r1 =>
+         if Nat.leb 128 (nat_of_ascii cv) then Unsup else
          match r1 with
          | EmptyString => Err "ValueError" "unmatched '{' in format spec"
          | String c2 r2 =>
@@ -577,7 +582,7 @@ Qed.
 Lemma parse_field_render f rest :
   field_ok f -> parse_field (field_body f ++ rest) = Ok (f, rest).
 Proof.
-  destruct f as [[name sp] cv]. intros [Hn Hs]. unfold field_body.
+  destruct f as [[name sp] cv]. intros [Hn [Hs Hc]]. unfold field_body. simpl in Hc.
   rewrite !append_assoc_s.
   destruct cv as [c|]; destruct sp as [|s0 sp'].
   - change (name ++ conv_text (Some c) ++ spec_text "" ++ String rbrace "" ++ rest)
@@ -585,13 +590,13 @@ Proof.
     rewrite (parse_field_shape name "!"%char _ Hn eq_refl).
     replace (Ascii.eqb "!"%char rbrace) with false by reflexivity.
     replace (Ascii.eqb "!"%char "!"%char) with true by reflexivity.
-    cbv iota. now rewrite Ascii.eqb_refl.
+    cbv iota. rewrite Hc. now rewrite Ascii.eqb_refl.
   - change (name ++ conv_text (Some c) ++ spec_text (String s0 sp') ++ String rbrace "" ++ rest)
       with (name ++ String "!"%char (String c (String ":"%char (String s0 sp' ++ String rbrace rest)))).
     rewrite (parse_field_shape name "!"%char _ Hn eq_refl).
     replace (Ascii.eqb "!"%char rbrace) with false by reflexivity.
     replace (Ascii.eqb "!"%char "!"%char) with true by reflexivity.
-    cbv iota.
+    cbv iota. rewrite Hc.
     replace (Ascii.eqb ":"%char rbrace) with false by reflexivity.
     replace (Ascii.eqb ":"%char ":"%char) with true by reflexivity.
     rewrite (read_spec_plain (String s0 sp') rest Hs). reflexivity.
@@ -699,5 +704,5 @@ Proof.
   { cbn [render_parts field_body conv_text spec_text append]. now rewrite append_nil_r. }
   rewrite E.
   rewrite keep_type_render; [apply keep_items_single| |reflexivity].
-  constructor; [|constructor]. split; [reflexivity|]. split; [exact Hn|reflexivity].
+  constructor; [|constructor]. split; [reflexivity|]. split; [exact Hn|split; [reflexivity|exact I]].
 Qed.
